@@ -148,6 +148,60 @@ macro_rules! lens {
 lens!(check_ldap_escape, 13, ldap_escape_len1 => 1, ldap_escape_len2 => 2, ldap_escape_len3 => 3, ldap_escape_len4 => 4);
 lens!(check_dn_escape, 13, dn_escape_len1 => 1, dn_escape_len2 => 2, dn_escape_len3 => 3, dn_escape_len4 => 4);
 
+// ---- non-ASCII text: every string of the UTF-8 shapes (2-byte char, ASCII), (ASCII, 2-byte char), (3-byte char),
+// (ASCII, 2-byte char, ASCII); the oracles work on bytes, so multi-byte characters must pass through untouched and
+// positions ("leading", "trailing") are byte positions of ASCII characters
+fn cont(b: u8) -> bool { b >= 0x80 && b <= 0xBF }
+fn lead2(b: u8) -> bool { b >= 0xC2 && b <= 0xDF }
+fn valid3(a: u8, b: u8, c: u8) -> bool {
+    cont(c) && ((a == 0xE0 && b >= 0xA0 && b <= 0xBF) || (((a >= 0xE1 && a <= 0xEC) || a == 0xEE || a == 0xEF) && cont(b)) || (a == 0xED && b >= 0x80 && b <= 0x9F))
+}
+fn sym_shape(shape: u8) -> [u8; 3] {
+    let b: [u8; 3] = kani::any();
+    match shape {
+        0 => kani::assume(lead2(b[0]) && cont(b[1]) && b[2] < 128),
+        1 => kani::assume(b[0] < 128 && lead2(b[1]) && cont(b[2])),
+        _ => kani::assume(valid3(b[0], b[1], b[2])),
+    }
+    b
+}
+fn check_dn_escape_bytes<const N: usize>(b: [u8; N]) {
+    let s = unsafe { std::str::from_utf8_unchecked(&b[..]) };
+    let mut w = [0u8; 12];
+    let wl = dn_esc(&b[..], &mut w);
+    let got = dn_escape(s);
+    assert!(same(got.as_bytes(), &w[..wl]));
+    assert!(matches!(got, Cow::Borrowed(_)) == (wl == N));
+    let mut u = [0u8; 12];
+    match dn_unesc(&w[..wl], &mut u) { Some(ul) => assert!(same(&u[..ul], &b[..])), None => assert!(false) }
+}
+fn check_ldap_escape_bytes<const N: usize>(b: [u8; N]) {
+    let s = unsafe { std::str::from_utf8_unchecked(&b[..]) };
+    let mut w = [0u8; 12];
+    let wl = esc(&b[..], &mut w);
+    let got = ldap_escape(s);
+    assert!(same(got.as_bytes(), &w[..wl]));
+    assert!(matches!(got, Cow::Borrowed(_)) == (wl == N));
+}
+macro_rules! shapes {
+    ($f:ident, $($name:ident => $sh:expr),*) => { $(
+        #[kani::proof]
+        #[kani::unwind(13)]
+        #[kani::stub(std::string::String::from_utf8, stub_from_utf8)]
+        fn $name() { $f::<3>(sym_shape($sh)); }
+    )* };
+}
+shapes!(check_dn_escape_bytes, dn_escape_utf8_2a => 0, dn_escape_utf8_a2 => 1, dn_escape_utf8_3 => 2);
+shapes!(check_ldap_escape_bytes, ldap_escape_utf8_2a => 0, ldap_escape_utf8_a2 => 1, ldap_escape_utf8_3 => 2);
+#[kani::proof]
+#[kani::unwind(13)]
+#[kani::stub(std::string::String::from_utf8, stub_from_utf8)]
+fn dn_escape_utf8_a2a() {
+    let b: [u8; 4] = kani::any();
+    kani::assume(b[0] < 128 && lead2(b[1]) && cont(b[2]) && b[3] < 128);
+    check_dn_escape_bytes::<4>(b);
+}
+
 // the empty string (concrete; a zero-length symbolic array sends CBMC into the allocator's slow path)
 #[kani::proof]
 #[kani::unwind(3)]
@@ -231,43 +285,48 @@ mod verif_k {
         }
     }
 
-    // one step up the grammar, fixed shapes (thorough tier): `a=v` / `a>=v` with symbolic attribute and value bytes
-    fn os_is(t: &Tag, want: &[u8]) -> bool {
-        match t { Tag::OctetString(o) => o.inner.len() == want.len() && (want.len() == 0 || o.inner[0] == want[0]) && (want.len() < 2 || o.inner[1] == want[1]), _ => false }
+    // one step up the grammar, fixed shapes (thorough tier): extensible-match items with symbolic rule/attribute/value bytes.
+    // (`eq`/`non_eq` on `a=v` were tried: CBMC ran out of memory (20 GB) after 10 min of symbolic execution -- many0 over
+    //  Vec<Vec<u8>>; there is no harness for them.)
+    fn ctx_os(t: &Tag, id: u64, b: u8) -> bool {
+        match t { Tag::OctetString(o) => o.class == TagClass::Context && o.id == id && o.inner.len() == 1 && o.inner[0] == b, _ => false }
     }
+    fn plain(v: u8) -> bool { !(v == 0 || v == b'(' || v == b')' || v == b'*' || v == b'\\') }
+    // RFC 4511 4.5.1 MatchingRuleAssertion: matchingRule [1], type [2], matchValue [3], dnAttributes [4]; filter choice [9]
     #[kani::proof]
     #[kani::unwind(6)]
-    fn eq_item_a_eq_v() {
-        let a: u8 = kani::any();
+    fn ext_rule_only() {
+        let r: u8 = kani::any();
         let v: u8 = kani::any();
-        kani::assume(is_alpha(a));
-        kani::assume(!(v == 0 || v == b'(' || v == b')' || v == b'*' || v == b'\\'));
-        let inp = [a, b'=', v];
-        match eq(&inp[..]) {
+        kani::assume(is_alphabetic(r));
+        kani::assume(plain(v));
+        let inp = [b':', r, b':', b'=', v];
+        let res = std::mem::ManuallyDrop::new(dn_mrule(&inp[..]));
+        match &*res {
             Ok((rest, Tag::Sequence(s))) => {
                 assert!(rest.len() == 0);
-                assert!(s.class == TagClass::Context && s.id == 3 && s.inner.len() == 2);   // equalityMatch [3]
-                assert!(os_is(&s.inner[0], &[a]) && os_is(&s.inner[1], &[v]));
+                assert!(s.class == TagClass::Context && s.id == 9 && s.inner.len() == 2);
+                assert!(ctx_os(&s.inner[0], 1, r));
+                assert!(ctx_os(&s.inner[1], 3, v));
             }
             _ => { assert!(false); }
         }
     }
     #[kani::proof]
     #[kani::unwind(6)]
-    fn non_eq_item_a_op_v() {
+    fn ext_attr_only() {
         let a: u8 = kani::any();
         let v: u8 = kani::any();
-        let op: u8 = kani::any();
-        kani::assume(is_alpha(a));
-        kani::assume(op == b'>' || op == b'<' || op == b'~');
-        kani::assume(!(v == 0 || v == b'(' || v == b')' || v == b'*' || v == b'\\'));
-        let inp = [a, op, b'=', v];
-        match non_eq(&inp[..]) {
+        kani::assume(is_alphabetic(a));
+        kani::assume(plain(v));
+        let inp = [a, b':', b'=', v];
+        let res = std::mem::ManuallyDrop::new(attr_dn_mrule(&inp[..]));
+        match &*res {
             Ok((rest, Tag::Sequence(s))) => {
                 assert!(rest.len() == 0);
-                assert!(s.class == TagClass::Context && s.inner.len() == 2);
-                assert!(s.id == if op == b'>' { 5 } else if op == b'<' { 6 } else { 8 });
-                assert!(os_is(&s.inner[0], &[a]) && os_is(&s.inner[1], &[v]));
+                assert!(s.class == TagClass::Context && s.id == 9 && s.inner.len() == 2);
+                assert!(ctx_os(&s.inner[0], 2, a));
+                assert!(ctx_os(&s.inner[1], 3, v));
             }
             _ => { assert!(false); }
         }
